@@ -3,7 +3,8 @@
 // start-failure / hook-failure / blocked-start / shutdown-vs-start-up scenarios;
 // this check judges the C13 clauses (sharing, one Start per live trigger,
 // quiescence: registry empty, counts balanced, contexts cancelled, every
-// subscriber completed, nothing blocked).
+// subscriber completed, nothing blocked). Part E (identity_test.go) drives the
+// real graphql_datasource.SubscriptionSource through the real trigger-id path.
 package c13
 
 import (
@@ -12,4 +13,4 @@ import (
 	"verif/internal/subharness"
 )
 
-func TestCheck(t *testing.T) { subharness.Run(t, "C13") }
+func TestCheck(t *testing.T) { subharness.RunWith(t, "C13", triggerIdentity) }
